@@ -4,7 +4,7 @@
 #  3. the demonstration passes on the clean tree, 4. and fails with the patch.
 # Keeps /verif/seeded/<ID>-<v>/{patch.diff (re-based on main),demo,README.txt,confirm.log,confirm.json}.
 ID=$1; V=$2
-SRC=/tmp/seed/$ID/out/$V
+SRC=${SEED_SRC:-/verif/seeded/$ID-$V}   # re-confirmation works from the kept copy (SEED_SRC: a sub-agent's output directory)
 export GOFLAGS=-mod=mod GOPROXY=off GOSUMDB=off GOTOOLCHAIN=local
 WT=/tmp/confirm.$ID.$V
 git -C /repo worktree remove --force $WT 2>/dev/null
@@ -31,10 +31,10 @@ if ! git apply $PATCH >> $LOG 2>&1; then
   git apply --3way $PATCH >> $LOG 2>&1
   if git diff --name-only --diff-filter=U | grep -q .; then echo "$ID-$V: patch does not apply to main"; exit 3; fi
 fi
-git diff > $DST/patch.diff
+git diff > $DST/patch.diff.new && mv $DST/patch.diff.new $DST/patch.diff
 echo "== build" >> $LOG; go build ./... >> $LOG 2>&1 && go build -tags verif ./... >> $LOG 2>&1; build_rc=$?
 echo "== suite with patch" >> $LOG; go test -vet=off -count=1 $(go list ./... | grep -v log/mongo) >> $LOG 2>&1; suite_rc=$?
 echo "== demo with patch" >> $LOG; rundemo >> $LOG 2>&1; patched_rc=$?
-cp $demo $DST/; cp $SRC/README.txt $DST/ 2>/dev/null
-printf '{"build_rc": %d, "suite_rc": %d, "demo_on_clean_tree_rc": %d, "demo_with_patch_rc": %d, "demo_package_dir": "%s", "patch_ported_to_repaired_tree": %s, "confirmed_at_repo_commit": "%s"}\n' $build_rc $suite_rc $clean_rc $patched_rc "$dir" $ported "$(git rev-parse --short HEAD)" > $DST/confirm.json
+[ "$SRC" != "$DST" ] && { cp $demo $DST/; cp $SRC/README.txt $DST/ 2>/dev/null; }
+printf '{"build_rc": %d, "suite_rc": %d, "demo_on_clean_tree_rc": %d, "demo_with_patch_rc": %d, "demo_package_dir": "%s", "patch_ported_to_repaired_tree": %s, "confirmed_at_repo_commit": "%s"}\n' $build_rc $suite_rc $clean_rc $patched_rc "$dir" ${ported_keep:-$ported} "$(git rev-parse --short HEAD)" > $DST/confirm.json
 echo "$ID-$V: build=$build_rc suite=$suite_rc demo_clean=$clean_rc demo_patched=$patched_rc pkg=$pkg ported=$ported"
